@@ -248,7 +248,7 @@ fn main() {
     total.merge(t);
     total.merge(check_structured_par(&ties, !run.quick(), 2, run.threads));
     let meta = Meta {
-        rule: "history tree over the tie-heavy alphabet {null,0,1,2} (every word), every order type (all permutations of 1..=l with nulls at every subset of <=2 positions), an extreme-value alphabet (i32 MIN/MAX), de Bruijn long trace; every window 1..=len+2, every min_periods 0..=w (omitted for len>=w), every output position compared with a scan of the window. Exact comparison for min/max/arg/rank. Non-trivial = word with a non-null element. Configuration families (DESIGN 5.15): the value law on every input back end (backends); plateaus after non-dyadic history with undefined normalisation (flat-after-nondyadic); NaN kinds (*-nan-kinds).".into(),
+        rule: "history tree over the tie-heavy alphabet {null,0,1,2} (every word), every order type (all permutations of 1..=l with nulls at every subset of <=2 positions), an extreme-value alphabet (i32 MIN/MAX), de Bruijn long trace; every window 1..=len+2, every min_periods 0..=w (omitted for len>=w), every output position compared with a scan of the window. Exact comparison for min/max/arg/rank. Non-trivial = word with a non-null element. Configuration families (DESIGN 5.15): the value law on every input back end (backends); plateaus after non-dyadic history with undefined normalisation (flat-after-nondyadic); NaN kinds (*-nan-kinds). Round 8 (DESIGN 5.17): structured series of 1030 / 2100 elements.".into(),
         bounds: json!({
             "families": [
                 {"name": ties.name, "alphabet": json_word(&ties.alpha), "L": ties.max_len, "types": ties.tys.iter().map(|t| t.name.clone()).collect::<Vec<_>>()},
